@@ -525,27 +525,27 @@ def execute(case):
                     kw = {'phase': phase, 'misc_models': caller, 'elements': {'H': 2}}
                     if not op['flag']:
                         kw['add_gas_P_adj'] = False
-                    objs.append(_mk(fam, coef, via=op.get('via', 'direct'), **kw))
                     ev.update({'ev': 'construct', 'phase': op['phase'], 'flag': bool(op['flag']),
                                'none': bool(op.get('none', False)),
                                'given': list(op.get('given', [])), 'sib': act == 'sibling'})
+                    objs.append(_mk(fam, coef, via=op.get('via', 'direct'), **kw))
                 elif act == 'copy':
+                    ev['src'] = op['src']
                     objs.append(copy.copy(objs[op['src'] - 1]))
-                    ev['src'] = op['src']
                 elif act == 'deepcopy':
-                    objs.append(copy.deepcopy(objs[op['src'] - 1]))
                     ev['src'] = op['src']
+                    objs.append(copy.deepcopy(objs[op['src'] - 1]))
                 elif act == 'reload':
+                    ev.update({'src': op['src'], 'via': op['via']})
                     new, note = _reload(objs[op['src'] - 1], op['via'])
                     objs.append(new)
-                    ev.update({'src': op['src'], 'via': op['via']})
                     if note:
                         mism.append({'clause': 'ReloadRaises', 'step': k, 'exc': note,
                                      'detail': "Nasa9.from_dict: KeyError 'nasas' (worked around)"})
                 elif act == 'attach':
+                    ev.update({'src': op['src'], 'kind': op['kind']})
                     tgt = objs[op['src'] - 1].misc_models
                     tgt.append(_model(op['kind'], slopes, sum(1 for m in tgt if _kind(m) == op['kind'])))
-                    ev.update({'src': op['src'], 'kind': op['kind']})
                 else:
                     raise core.MachineryError('unknown op %r' % (op,))
         except core.MachineryError:
